@@ -251,6 +251,11 @@ return (_N, step)
         ok = ok and all({k.arg: unparse(k.value) for k in m.keywords}.get('circular') == 'True' for m in mods)
         rets = [n for n in walk_no_nested(f.node) if isinstance(n, ast.Return)]
         ok = ok and all(unparse(r.value).startswith(f'({unparse(getc[0].targets[0])},') for r in rets)
+        # positive part: no move before the whole configuration handed in has been applied
+        if mods and not (len(setc) >= 1 and all(any(c.dominates(c.node_of(s_), c.node_of(m)) for s_ in setc) for m in mods)):
+            ctx.add('C16.T4', f'CentralController.{name}:starts-from-argument', False, f,
+                    f'{name} moves a controller without first applying the configuration it was given (self.set_configuration(current_config)): the other controllers keep whatever an earlier call left, so the result is not a function of the argument and increase / decrease are not inverse', 'start', positive=True)
+            continue
         ctx.add('C16.T4', f'CentralController.{name}', ok, f, 'starts from the given configuration, moves circularly, returns the resulting configuration' if ok else f'{name} no longer has the shape set_configuration / circular moves / get_configuration', name)
     mc = ctrl.methods['modify_controller']
     ok = has(mc.node, """
@@ -296,16 +301,27 @@ if controlled_by is None:
     self.controlled_by = Controller(controller_name=__CN, specification_names=_NAMES)
 else:
     self.controlled_by = controlled_by
-    _CNAMES = list(controlled_by.specification_names)
-    if _NAMES != _CNAMES:
+    ___
+    if __CMP:
         ___
         raise BiogemeError(__MSG)
 """)
-    ok = b is not None and m_node(_parse('[_N.name for _N in self.named_expressions]')[0].value, b['__NAMES'][1], {})
-    if ok:
-        from ..core import inline_locals
-        ok = unparse(inline_locals(ki.node, b['__CN'][1])) == 'catalog_name'
-    ctx.add('C16.T5', 'Catalog.__init__:controller', ok, ki, 'an own controller lists the member names; a shared one must list exactly the same names in the same order' if ok else 'compatibility test between catalog and shared controller changed', 'compat')
+    from ..core import inline_locals
+
+    ok = None
+    why = 'shape not recognised - expected: names = [member names]; own controller built from them, or a shared controller whose specification_names are compared with them'
+    if b is not None and m_node(_parse('[_N.name for _N in self.named_expressions]')[0].value, b['__NAMES'][1], {}) and unparse(inline_locals(ki.node, b['__CN'][1])) == 'catalog_name':
+        cmp_ = inline_locals(ki.node, b['__CMP'][1])
+        txt = unparse(cmp_)
+        sides = [unparse(x) for x in ([cmp_.left] + cmp_.comparators)] if isinstance(cmp_, ast.Compare) and len(cmp_.ops) == 1 and isinstance(cmp_.ops[0], ast.NotEq) else []
+        names_txt = unparse(inline_locals(ki.node, ast.Name(id=b['_NAMES'], ctx=ast.Load())))
+        good = {names_txt, b['_NAMES']}
+        ctrl_forms = {'list(controlled_by.specification_names)', 'list(self.controlled_by.specification_names)'}
+        if len(sides) == 2 and ((sides[0] in good and sides[1] in ctrl_forms) or (sides[1] in good and sides[0] in ctrl_forms)):
+            ok = True
+        elif any(w in txt for w in ('set(', 'sorted(', 'frozenset(', 'Counter(')):
+            ok, why = False, f'the names of a catalog and of its shared controller are compared without their order ({txt}): members are selected by position, so catalogs sharing a controller may take different alternatives under one configuration'
+    ctx.add('C16.T5', 'Catalog.__init__:controller', ok, ki, 'an own controller lists the member names; a shared one must list exactly the same names in the same order' if ok else why, 'compat', positive=ok is False)
     si = ctrl.methods['set_index']
     ok = has(si.node, """
 if index < 0 or index >= self.controller_size():
